@@ -239,6 +239,16 @@ func installInvocationCheck() {
 			if err != nil && strings.Contains(err.Error(), "cannot assign struct literal to map") {
 				fail(t, "C16", "struct-in-typed-map-position-in-fork-invocation", "the _invocation of %s renders a struct value bound to a typed-map position as a struct literal: %v\n_invocation:\n%s\n%s", j, err, invText, rc.describe())
 			}
+			if err != nil && illegalKeyRe.MatchString(err.Error()) {
+				// known finding: a map key that is no file name reaches a
+				// parameter whose map values hold files through a conversion
+				const k = "C16/fork-invocation-illegal-filename-key"
+				if stats.Known(k) {
+					stats.Count("C16", "excluded:fork-invocation-illegal-filename-key", 1)
+					continue
+				}
+				fail(t, "C16", "fork-invocation-illegal-filename-key", "the _invocation of %s does not compile against _mrosource: %v\n_invocation:\n%s\n%s", j, err, invText, rc.describe())
+			}
 			if err != nil {
 				fail(t, "C16", "fork-invocation-does-not-compile", "the _invocation of %s does not compile against _mrosource: %v\n_invocation:\n%s\n%s", j, err, invText, rc.describe())
 			}
@@ -286,6 +296,39 @@ func TestC16KnownLongDigitFloat(t *testing.T) {
 	if _, err := inv.BuildCallSource([]string{dir}); err != nil {
 		fmt.Printf("KNOWN-PRESENT C16/float-written-as-20-plus-digits: %v\n", err)
 	}
+}
+
+var illegalKeyRe = regexp.MustCompile(`key [^\n]*: (empty string|reserved name|'/' is not allowed in filenames|null characters are not allowed)`)
+
+// TestC16KnownIllegalFilenameKey: reproducer of a known finding.  The key ""
+// is legal for map<S> (no files in S); bound to a stage parameter of type
+// map<W> whose struct holds a path (string -> path coercion), the fork's
+// _invocation writes the value as a literal of type map<W>, which the
+// compiler refuses because "" cannot be a directory name.
+func TestC16KnownIllegalFilenameKey(t *testing.T) {
+	invocationCheck = nil
+	defer func() { invocationCheck = nil }()
+	saved := os.Getenv("VERIF_KNOWN")
+	os.Setenv("VERIF_KNOWN", "")
+	defer os.Setenv("VERIF_KNOWN", saved)
+	knownPresentWith(t, "C16/fork-invocation-illegal-filename-key", func(a int) *mrogen.Program {
+		u := &mrogen.Universe{Structs: []*mrogen.Struct{
+			{Name: "S", Fields: []mrogen.Field{{Name: "c", T: ty{Base: "string"}}}},
+			{Name: "W", Fields: []mrogen.Field{{Name: "c", T: ty{Base: "path"}}}},
+		}}
+		p := &mrogen.Program{U: u}
+		p.Stages = []*mrogen.Stage{st("C", []mrogen.Param{pm("p", ty{Base: "W", Map: 1})}, []mrogen.Param{pm("o", tInt)})}
+		top := &mrogen.Pipeline{Name: "TOP", Ins: []mrogen.Param{pm("m", ty{Base: "S", Map: 1})}, Outs: []mrogen.Param{pm("r", tInt)},
+			Calls: []*mrogen.Call{{Id: "C", Callee: "C", Bindings: []mrogen.Binding{{Param: "p", E: self("m")}}}},
+			Ret:   []mrogen.Binding{{Param: "r", E: out("C", "o")}}}
+		p.Pipelines = []*mrogen.Pipeline{top}
+		inner := jsonx.NewObj()
+		inner.Set("c", fmt.Sprintf("x%d", a))
+		o := jsonx.NewObj()
+		o.Set("", inner)
+		p.Top = &mrogen.Call{Id: "TOP", Callee: "TOP", Bindings: []mrogen.Binding{{Param: "m", E: lit(o, ty{Base: "S", Map: 1})}}}
+		return p
+	}, true)
 }
 
 // TestC16KnownStructAsTypedMap: reproducer of a known finding.
